@@ -1,0 +1,32 @@
+//! ListenerRig: a real `UDPListener` on a loopback port. The harness sends datagrams to the
+//! port from an ordinary socket and calls `drain()` once per readiness event, as
+//! `DPEventLoop` does; what comes out is what the `MessageReceiver` would be given.
+
+use crate::network::udp_listener::UDPListener;
+
+pub struct ListenerRig {
+  listener: UDPListener,
+  pub port: u16,
+}
+
+impl ListenerRig {
+  /// binds the first free port at or above `first_port`
+  pub fn new(first_port: u16) -> Option<Self> {
+    for port in first_port..first_port.saturating_add(200) {
+      if let Ok(listener) = UDPListener::new_unicast("127.0.0.1", port) {
+        return Some(Self { listener, port });
+      }
+    }
+    None
+  }
+
+  /// one call of `UDPListener::messages()`: every datagram waiting in the socket
+  pub fn drain(&mut self) -> Vec<Vec<u8>> {
+    self
+      .listener
+      .messages()
+      .into_iter()
+      .map(|b| b.to_vec())
+      .collect()
+  }
+}
